@@ -375,13 +375,14 @@ class Program:
                 if mm:
                     self.closure_index.setdefault(mm.group(1), f)
             if f.impl_at:
-                trait, selfty = src.impl_info(f.impl_at)
+                trait, selfty, trait_raw = src.impl_info(f.impl_at)
                 meth = name[name.index('>::') + 3:] if '>::' in name else name
                 last = (selfty or '?').split('::')[-1]
-                self.impl_index.setdefault((last, meth), []).append((f, trait.split('::')[-1] if trait else None, selfty))
+                self.impl_index.setdefault((last, meth), []).append((f, trait.split('::')[-1] if trait else None, selfty, _trait_arg(trait_raw)))
             else:
                 self.by_last.setdefault(name.split('::')[-1] if '{closure#' not in name else name, []).append(f)
         self.known_types = {k[1] for k in src.enums} | {k[1] for k in src.structs}
+        self.trait_names = {c[1] for v in self.impl_index.values() for c in v if c[1]}
 
     # ------------------------------------------------------------ builtin registry
     def builtin(self, *names):
@@ -461,16 +462,18 @@ def parse_callee(name):
             elif d == 0 and inner.startswith(' as ', j):
                 k = j
             j += 1
+        trait_raw = None
         if k >= 0:
             T_raw = inner[:k]
-            trait = strip_generics(inner[k + 4:])
+            trait_raw = inner[k + 4:]
+            trait = strip_generics(trait_raw)
         else:
             T_raw = inner
             trait = None
         T = norm_type(T_raw)
         rest_n = _strip_turbofish(rest)
         norm = '<%s%s>::%s' % (T, (' as ' + trait.split('::')[-1]) if trait else '', rest_n)
-        return dict(kind='qual', T=T, T_raw=T_raw, trait=trait, rest=rest_n, norm=norm, raw=name)
+        return dict(kind='qual', T=T, T_raw=T_raw, trait=trait, trait_raw=trait_raw, rest=rest_n, norm=norm, raw=name)
     norm = _strip_turbofish(name)
     return dict(kind='path', T=None, T_raw=None, trait=None, rest=norm, norm=norm, raw=name)
 
@@ -550,6 +553,9 @@ class Ctx:
         self.fresh = 0
         self.notes = []
         self.sat_cache = {}
+        self.fail_stack = None
+        self.fs = {}                # virtual file system for io stubs: path string -> content (str) | ('err', msg)
+        self.cwd = '/cwd'
 
     # ------------------------------------------------------------ symbolic variables
     def bv(self, name, bits):
@@ -679,7 +685,8 @@ class Ctx:
         self.events.append(e)
 
     def where(self):
-        return ' > '.join(s.split('::')[-1] for s in self.stack[-6:])
+        st = self.fail_stack if self.fail_stack is not None else self.stack
+        return ' > '.join(s.split('::')[-1] for s in st[-7:])
 
 
 # ---------------------------------------------------------------- resolution
@@ -698,10 +705,48 @@ def _is_generic_param(prog, T):
         return False
     if T in prog.known_types or T in _STD_TYPES:
         return False
+    return T in prog.sources.generic_names
+
+
+def type_sig(t):
+    """comparable spelling of a type: lifetimes and whitespace removed, `crate::` dropped (`&'a Rc<opcode::Value>` -> `&Rc<opcode::Value>`)"""
+    t = re.sub(r"'\w+\s*,\s*", '', t)
+    t = re.sub(r"'\w+\s*", '', t)
+    t = re.sub(r'\bmut\s+', '', t)
+    t = re.sub(r'\b(crate|self|super)::', '', t)
+    t = re.sub(r'<\s*>', '', t)
+    return re.sub(r'\s+', '', t)
+
+
+_PATH_TOK = re.compile(r'[A-Za-z_][\w]*(?:::[A-Za-z_][\w]*)*')
+
+
+def sig_match(a, b):
+    """same shape, and every path in one is a `::`-suffix of the corresponding path in the other"""
+    if a is None or b is None:
+        return False
+    pa = _PATH_TOK.findall(a)
+    pb = _PATH_TOK.findall(b)
+    if len(pa) != len(pb) or _PATH_TOK.sub('#', a) != _PATH_TOK.sub('#', b):
+        return False
+    for x, y in zip(pa, pb):
+        if not (x == y or x.endswith('::' + y) or y.endswith('::' + x)):
+            return False
     return True
 
 
-def _match_impl(prog, T, trait, meth, allow_any_trait=False):
+def _trait_arg(trait_raw):
+    """signature of the first generic argument of a trait reference: `From<&'a OffsetStrIter<'a>>` -> &OffsetStrIter"""
+    if not trait_raw or '<' not in trait_raw:
+        return None
+    inner = trait_raw[trait_raw.index('<') + 1:trait_raw.rindex('>')]
+    parts = [x for x in split_top(inner) if not x.strip().startswith("'")]
+    if not parts:
+        return None
+    return type_sig(parts[0])
+
+
+def _match_impl(prog, T, trait, meth, allow_any_trait=False, trait_raw=None):
     last = T.split('::')[-1]
     cands = prog.impl_index.get((last, meth), [])
     tl = trait.split('::')[-1] if trait else None
@@ -711,6 +756,13 @@ def _match_impl(prog, T, trait, meth, allow_any_trait=False):
         c2 = cands
     else:
         c2 = [c for c in cands if c[1] is None] or cands
+    if len(c2) > 1 and trait_raw:
+        ta = _trait_arg(trait_raw)
+        if ta:
+            c3 = [c for c in c2 if sig_match(c[3], ta)] or [c for c in c2 if c[3] and sig_match(c[3].lstrip('&'), ta.lstrip('&'))] \
+                or [c for c in c2 if c[3] and sig_match(c[3].lstrip('&').split('<')[0], ta.lstrip('&').split('<')[0])]
+            if c3:
+                c2 = c3
     if len(c2) > 1:
         # disambiguate by qualifier vs impl file / declared module
         qual = T.split('::')[:-1]
@@ -748,11 +800,30 @@ def _resolve(prog, name):
         tl = trait.split('::')[-1] if trait else None
         if T in ('{closure}', 'fn') and tl in ('Fn', 'FnMut', 'FnOnce'):
             return ('closure_call',)
-        if _is_generic_param(prog, T):
+        if _is_generic_param(prog, T) or T.startswith('dyn ') and tl not in ('Write',) and T[4:].split('::')[-1] in prog.trait_names:
             if tl in ('Fn', 'FnMut', 'FnOnce'):
                 return ('closure_call',)
             return ('dyn', info)
-        f = _match_impl(prog, T, trait, rest)
+        f = _match_impl(prog, T, trait, rest, trait_raw=info.get('trait_raw'))
+        if f is None and tl == 'TryInto' and rest == 'try_into' and info.get('trait_raw') and '<' in info['trait_raw']:
+            tr = info['trait_raw']
+            Y = tr[tr.index('<') + 1:tr.rindex('>')]
+            cands = [c for c in prog.impl_index.get((norm_type(Y).split('::')[-1], 'try_from'), []) if c[1] == 'TryFrom']
+            ta = type_sig(info['T_raw'])
+            c3 = [c for c in cands if sig_match(c[3], ta)] or [c for c in cands if c[3] and sig_match(c[3].lstrip('&'), ta.lstrip('&'))]
+            if c3:
+                return ('mir', c3[0][0])
+        if f is None and tl == 'Into' and rest == 'into' and info.get('trait_raw') and '<' in info['trait_raw']:
+            # blanket impl: X: Into<Y> via Y: From<X>
+            tr = info['trait_raw']
+            Y = tr[tr.index('<') + 1:tr.rindex('>')]
+            fy = _match_impl(prog, norm_type(Y), 'From', 'from', trait_raw='From<%s>' % info['T_raw'])
+            if fy is not None and (prog.impl_index.get((norm_type(Y).split('::')[-1], 'from'))):
+                cands = [c for c in prog.impl_index[(norm_type(Y).split('::')[-1], 'from')] if c[1] == 'From']
+                ta = type_sig(info['T_raw'])
+                c3 = [c for c in cands if sig_match(c[3], ta)] or [c for c in cands if c[3] and sig_match(c[3].lstrip('&'), ta.lstrip('&'))]
+                if c3:
+                    return ('mir', c3[0][0])
         if f is None:
             # wrappers that forward: Box<X>, Rc<X>, &X
             raw = info['T_raw'].strip()
@@ -761,6 +832,15 @@ def _resolve(prog, name):
                 return _resolve(prog, '<%s as %s>::%s' % (m.group(2), trait, rest))
         if f is not None:
             return ('mir', f)
+        if tl == 'PartialEq' and rest == 'ne':
+            te = _resolve(prog, name[:-2] + 'eq')
+            if te[0] == 'mir':
+                fe = te[1]
+
+                def ne_via_eq(ctx, a, callee, _fe=fe):
+                    r = exec_func(ctx, _fe, a)
+                    return z3.Not(r) if is_sym(r) else (not r)
+                return ('builtin', ne_via_eq, norm)
         b = prog.find_builtin(norm)
         if b:
             return ('builtin', b, norm)
@@ -803,6 +883,9 @@ def _resolve(prog, name):
             return ('mir', c[0])
         if len(c) > 1:
             c.sort(key=lambda f: -len(f.name))
+            return ('mir', c[0])
+        c = [f for f in fl if f.crate == segs[0]]
+        if len(c) == 1:
             return ('mir', c[0])
     return ('none', norm)
 
@@ -877,6 +960,10 @@ def exec_func(ctx, f, args):
             bb = term(ctx, L)
             if bb < 0:
                 break
+    except BaseException:
+        if ctx.fail_stack is None:
+            ctx.fail_stack = list(ctx.stack) + ['bb%d' % bb]
+        raise
     finally:
         ctx.depth -= 1
         ctx.stack.pop()
@@ -1119,7 +1206,33 @@ def compile_const(prog, f, s):
             if m:
                 return FnPtr(m.group(1))
         return Agg(norm_type(t), None, ())
+    if '{{' in s or re.fullmatch(r'[\w:]+\(.*\)', s, re.S):
+        try:
+            return _const_agg(prog, f, s)
+        except Unsupported:
+            pass
     return ('lazy', s)
+
+
+def _const_agg(prog, f, s):
+    """constant aggregates as printed by rustc: `T {{ f: v }}`, `T {{  }}`, `T(v, w)`, scalars"""
+    s = s.strip()
+    m = re.fullmatch(r'([\w:<>, ]+?) \{\{(.*)\}\}', s, re.S)
+    if m and mir.balanced(m.group(2)):
+        ty, variant = _agg_head(prog, m.group(1))
+        flds = []
+        for x in split_top(m.group(2)):
+            if x.strip():
+                flds.append(_const_agg(prog, f, x.split(': ', 1)[1] if re.match(r'\w+: ', x.strip()) else x))
+        return Agg(ty, variant, flds)
+    m = re.fullmatch(r'([\w:<>, ]+?)\((.*)\)', s, re.S)
+    if m and mir.balanced(m.group(2)) and not s.startswith('('):
+        ty, variant = _agg_head(prog, m.group(1))
+        return Agg(ty, variant, [_const_agg(prog, f, x) for x in split_top(m.group(2))])
+    c = compile_const(prog, f, s[6:] if s.startswith('const ') else s)
+    if type(c) is tuple and c and c[0] == 'lazy':
+        raise Unsupported('const aggregate ' + s)
+    return c
 
 
 def compile_operand(prog, f, s):
@@ -1142,6 +1255,10 @@ def compile_operand(prog, f, s):
                 return v
             return lazy
         return lambda ctx, L: c
+    # bare path: a function item used as a value
+    if re.match(r'^[\w<]', s):
+        fp = FnPtr(s)
+        return lambda ctx, L: fp
     raise Unsupported('operand? ' + s)
 
 
@@ -1368,19 +1485,8 @@ def compile_rvalue(prog, f, s):
         return lambda ctx, L: Agg(ty, variant, ())
     # enum tuple variant / tuple struct  `Path::Variant(args)`
     if s.endswith(')'):
-        depth = 0
-        j = len(s) - 1
-        while j >= 0:
-            if s[j] == ')':
-                depth += 1
-            elif s[j] == '(':
-                depth -= 1
-                if depth == 0:
-                    break
-            j -= 1
-        head = s[:j]
-        args = s[j + 1:-1]
-        if re.fullmatch(r'[\w:<>\', &\[\]();{}@./#\-]+', head):
+        head, args = mir.split_call(s)
+        if head and re.fullmatch(r"[\w:<>', &\[\]();{}@./#\-*]+", head) and not head.startswith(('move ', 'copy ')):
             ops = [compile_operand(prog, f, x) for x in split_top(args)]
             ty, variant = _agg_head(prog, head)
             return lambda ctx, L: Agg(ty, variant, [o(ctx, L) for o in ops])
